@@ -152,6 +152,9 @@ fn build_dir(job: &Value, scratch: &Path) -> std::io::Result<(PathBuf, PathBuf)>
     Ok((given, proj))
 }
 
+/// how often the suspend/resume fault actually landed inside a blocked write (per worker)
+pub static STOP_CONT_FIRED: std::sync::atomic::AtomicU64 = std::sync::atomic::AtomicU64::new(0);
+
 struct ToolRun {
     status: Option<i32>,
     signal: bool,
@@ -189,8 +192,17 @@ fn run_tool(cmd: &mut Command, timeout: Duration, device: &str, scratch: &Path) 
     cmd.stdout(Stdio::null());
     let so_pipe = child.stdout.take();
     let mut se = child.stderr.take().unwrap();
+    // "slow_pipe_stop": the consumer at the other end of the pipe does not read until the tool is
+    // blocked in write(1, ..) on the full pipe; the tool is then suspended and resumed (job
+    // control: ^Z / fg, or a supervisor's SIGSTOP / SIGCONT), which makes the blocked write
+    // return short; only then does the consumer drain the pipe
+    let gate = std::sync::Arc::new(std::sync::atomic::AtomicBool::new(device != "slow_pipe_stop"));
+    let gate2 = gate.clone();
     let h1 = std::thread::spawn(move || {
         let mut b = vec![];
+        while !gate2.load(std::sync::atomic::Ordering::SeqCst) {
+            std::thread::sleep(Duration::from_millis(1));
+        }
         if let Some(mut so) = so_pipe {
             let _ = so.read_to_end(&mut b);
         } else if master_fd >= 0 {
@@ -213,10 +225,41 @@ fn run_tool(cmd: &mut Command, timeout: Duration, device: &str, scratch: &Path) 
     });
     let t0 = Instant::now();
     let mut timed_out = false;
+    let pid = child.id() as i32;
+    let mut blocked_polls = 0;
     let st = loop {
         match child.try_wait()? {
-            Some(s) => break s,
+            Some(s) => {
+                gate.store(true, std::sync::atomic::Ordering::SeqCst);
+                break s;
+            }
             None => {
+                if !gate.load(std::sync::atomic::Ordering::SeqCst) {
+                    // x86_64: syscall 1 = write, first argument = fd 1
+                    let sc = std::fs::read_to_string(format!("/proc/{}/syscall", pid)).unwrap_or_default();
+                    if sc.starts_with("1 0x1 ") {
+                        blocked_polls += 1;
+                    } else {
+                        blocked_polls = 0;
+                    }
+                    if blocked_polls >= 3 {
+                        unsafe {
+                            libc::kill(pid, libc::SIGSTOP);
+                        }
+                        for _ in 0..200 {
+                            let stt = std::fs::read_to_string(format!("/proc/{}/stat", pid)).unwrap_or_default();
+                            if stt.rsplit(") ").next().map(|r| r.starts_with('T')).unwrap_or(true) {
+                                break;
+                            }
+                            std::thread::sleep(Duration::from_millis(1));
+                        }
+                        unsafe {
+                            libc::kill(pid, libc::SIGCONT);
+                        }
+                        STOP_CONT_FIRED.fetch_add(1, std::sync::atomic::Ordering::SeqCst);
+                        gate.store(true, std::sync::atomic::Ordering::SeqCst);
+                    }
+                }
                 if t0.elapsed() > timeout {
                     let _ = child.kill();
                     timed_out = true;
@@ -394,6 +437,7 @@ pub fn run(ctx: &mut WorkerCtx, job: &Value) -> JobOutput {
         }
     }
     let device = job["stdout_to"].as_str().unwrap_or("pipe").to_string();
+    let fired0 = STOP_CONT_FIRED.load(std::sync::atomic::Ordering::SeqCst);
     let run = match run_tool(&mut cmd, Duration::from_secs(120), &device, &ctx.scratch) {
         Ok(r) => r,
         Err(e) => {
@@ -403,6 +447,7 @@ pub fn run(ctx: &mut WorkerCtx, job: &Value) -> JobOutput {
             }
         }
     };
+    result["stop_cont_in_blocked_write"] = json!(STOP_CONT_FIRED.load(std::sync::atomic::Ordering::SeqCst) > fired0);
     result["status"] = json!(run.status);
     result["stdout_bytes"] = json!(run.stdout.len());
     result["stderr_bytes"] = json!(run.stderr.len());
